@@ -202,7 +202,6 @@ def replay(out, path):
         out.samples.append({"replayed": path})
         return
     if "stages" in case:
-        import os
         cin, cout = os.path.join(work, "sg.json"), os.path.join(work, "st.json")
         json.dump([{k: case.get(k) for k in ("id", "form", "k", "stages", "mode", "deep")}], open(cin, "w"))
         core.run_driver("harness.drivers.staged_driver", [cin, cout])
